@@ -214,24 +214,19 @@ macro_rules! tri {
 
 pub(crate) use tri;
 
-struct DepthGuard<'a, R> {
-    de: &'a mut Deserializer<R>,
-}
-
-impl<'a, 'de, R: Reader<'de>> DepthGuard<'a, R> {
-    fn guard(de: &'a mut Deserializer<R>) -> Result<Self> {
-        de.remaining_depth -= 1;
-        if de.remaining_depth == 0 {
-            return Err(de.parser.error(RecursionLimitExceeded));
+// Run `$e` one nesting level deeper, or fail when the nesting limit is exceeded.
+macro_rules! nested {
+    ($self:ident, $e:expr) => {{
+        $self.remaining_depth -= 1;
+        if $self.remaining_depth == 0 {
+            $self.remaining_depth += 1;
+            Err($self.parser.error(RecursionLimitExceeded))
+        } else {
+            let ret = $e;
+            $self.remaining_depth += 1;
+            ret
         }
-        Ok(Self { de })
-    }
-}
-
-impl<'a, R> Drop for DepthGuard<'a, R> {
-    fn drop(&mut self) {
-        self.de.remaining_depth += 1;
-    }
+    }};
 }
 
 // The length of the prefix of `json` whose `String::from_utf8_lossy` repr is `n` bytes long.
@@ -497,8 +492,7 @@ impl<'de, 'a, R: Reader<'de>> de::Deserializer<'de> for &'a mut Deserializer<R> 
             },
             b'[' => {
                 let ret = {
-                    let _ = DepthGuard::guard(self);
-                    visitor.visit_seq(SeqAccess::new(self))
+                    nested!(self, visitor.visit_seq(SeqAccess::new(self)))
                 };
                 match (ret, self.end_seq()) {
                     (Ok(ret), Ok(())) => Ok(ret),
@@ -507,8 +501,7 @@ impl<'de, 'a, R: Reader<'de>> de::Deserializer<'de> for &'a mut Deserializer<R> 
             }
             b'{' => {
                 let ret = {
-                    let _ = DepthGuard::guard(self);
-                    visitor.visit_map(MapAccess::new(self))
+                    nested!(self, visitor.visit_map(MapAccess::new(self)))
                 };
                 match (ret, self.end_map()) {
                     (Ok(ret), Ok(())) => Ok(ret),
@@ -781,8 +774,7 @@ impl<'de, 'a, R: Reader<'de>> de::Deserializer<'de> for &'a mut Deserializer<R> 
         let value = match peek {
             b'[' => {
                 let ret = {
-                    let _ = DepthGuard::guard(self);
-                    visitor.visit_seq(SeqAccess::new(self))
+                    nested!(self, visitor.visit_seq(SeqAccess::new(self)))
                 };
                 match (ret, self.end_seq()) {
                     (Ok(ret), Ok(())) => Ok(ret),
@@ -827,8 +819,7 @@ impl<'de, 'a, R: Reader<'de>> de::Deserializer<'de> for &'a mut Deserializer<R> 
         let value = match peek {
             b'{' => {
                 let ret = {
-                    let _ = DepthGuard::guard(self);
-                    visitor.visit_map(MapAccess::new(self))
+                    nested!(self, visitor.visit_map(MapAccess::new(self)))
                 };
                 match (ret, self.end_map()) {
                     (Ok(ret), Ok(())) => Ok(ret),
@@ -859,8 +850,7 @@ impl<'de, 'a, R: Reader<'de>> de::Deserializer<'de> for &'a mut Deserializer<R> 
         let value = match peek {
             b'[' => {
                 let ret = {
-                    let _ = DepthGuard::guard(self);
-                    visitor.visit_seq(SeqAccess::new(self))
+                    nested!(self, visitor.visit_seq(SeqAccess::new(self)))
                 };
                 match (ret, self.end_seq()) {
                     (Ok(ret), Ok(())) => Ok(ret),
@@ -869,8 +859,7 @@ impl<'de, 'a, R: Reader<'de>> de::Deserializer<'de> for &'a mut Deserializer<R> 
             }
             b'{' => {
                 let ret = {
-                    let _ = DepthGuard::guard(self);
-                    visitor.visit_map(MapAccess::new(self))
+                    nested!(self, visitor.visit_map(MapAccess::new(self)))
                 };
                 match (ret, self.end_map()) {
                     (Ok(ret), Ok(())) => Ok(ret),
@@ -902,8 +891,7 @@ impl<'de, 'a, R: Reader<'de>> de::Deserializer<'de> for &'a mut Deserializer<R> 
             Some(b'{') => {
                 self.parser.read.eat(1);
                 let value = {
-                    let _ = DepthGuard::guard(self);
-                    tri!(visitor.visit_enum(VariantAccess::new(self)))
+                    tri!(nested!(self, visitor.visit_enum(VariantAccess::new(self))))
                 };
 
                 match self.parser.skip_space() {
